@@ -45,6 +45,15 @@ func shortType(s string) string {
 	return s
 }
 
+// allocsIn: the allocations of the named type in the region of fn.
+func allocsIn(r *region, named *types.Named) []*ssa.Alloc {
+	var out []*ssa.Alloc
+	for _, f := range r.funcs {
+		out = append(out, allocsOf(f, named)...)
+	}
+	return out
+}
+
 func allocsOf(fn *ssa.Function, named *types.Named) []*ssa.Alloc {
 	var out []*ssa.Alloc
 	sx.EachInstr(fn, func(in ssa.Instruction) {
@@ -96,7 +105,7 @@ func runOpaque(c *core.Ctx) {
 	for _, x := range exps {
 		named := p.Named("errbase", x.typ)
 		construct := fmt.Sprintf("%s: %s.%s <- %s", load.FnName(x.fn), x.typ, strings.Join(x.field, "."), x.want)
-		als := allocsOf(x.fn, named)
+		als := allocsIn(regionOf(x.fn), named)
 		if named == nil || len(als) == 0 {
 			c.Fail(construct, x.fn.Pos(), "the opaque fallback value is no longer built here")
 			continue
@@ -149,7 +158,7 @@ func runOpaque(c *core.Ctx) {
 	}
 	for _, x := range outs {
 		named := p.ExtNamed(load.ModPath+"/errorspb", x.msgT)
-		als := allocsOf(x.fn, named)
+		als := allocsIn(regionOf(x.fn), named)
 		construct := fmt.Sprintf("%s: %s.%s re-emits %s", load.FnName(x.fn), x.msgT, x.field, strings.Join(x.wants, " / "))
 		if len(als) == 0 {
 			c.Fail(construct, x.fn.Pos(), "outgoing wire message is no longer built here")
@@ -240,41 +249,41 @@ var rTreeRec = &Rule{
 		// leaf: causes for multi-cause decoder and fallback
 		checkCauses := func(v ssa.Value, what string, pos token.Pos) {
 			got := recvSubs(e, v, nil)
-			hasDecode := false
-			for _, o := range e.TraceRecv(v, nil).List() {
-				_ = o
-			}
 			// every element stored into the slice is a DecodeError call
-			ms, _ := sx.Unspill(v).(*ssa.MakeSlice)
-			if ms == nil {
-				if ld, ok := v.(*ssa.UnOp); ok {
-					_ = ld
-				}
-			}
-			var find func(val ssa.Value, depth int)
-			seen := map[ssa.Value]bool{}
-			find = func(val ssa.Value, depth int) {
-				if seen[val] || depth > 6 {
-					return
-				}
-				seen[val] = true
+			elemsDecoded := func(val ssa.Value) bool {
 				refs := val.Referrers()
 				if refs == nil {
-					return
+					return false
 				}
+				found := false
 				for _, r := range *refs {
 					if ia, ok := r.(*ssa.IndexAddr); ok && ia.X == val {
 						for _, r2 := range *ia.Referrers() {
 							if st, ok := r2.(*ssa.Store); ok && st.Addr == ia {
 								if cl, ok := st.Val.(*ssa.Call); ok && sx.Callee(cl) == de {
-									hasDecode = true
+									found = true
 								}
 							}
 						}
 					}
 				}
+				return found
 			}
-			find(sx.Unspill(v), 0)
+			hasDecode := elemsDecoded(sx.Unspill(v))
+			// ... or the slice is the result of a same-package helper all of whose
+			// returns are such slices, built from the slice it is handed
+			if cl, ok := sx.Unspill(v).(*ssa.Call); ok && !hasDecode {
+				if h := sx.Callee(cl); h != nil && h.Pkg == dl.Pkg && h.Blocks != nil {
+					all := true
+					rets := sx.Returns(h)
+					for _, r := range rets {
+						if len(r.Results) != 1 || !elemsDecoded(sx.Unspill(r.Results[0])) {
+							all = false
+						}
+					}
+					hasDecode = all && len(rets) > 0
+				}
+			}
 			fromWire := false
 			for k := range got {
 				if strings.HasPrefix(k, "EncodedErrorLeaf.MultierrorCauses") {
@@ -284,7 +293,8 @@ var rTreeRec = &Rule{
 			ok := hasDecode && fromWire
 			c.Check(ok, "errbase.decodeLeaf: "+what, pos, "each element is DecodeError(enc.MultierrorCauses[i])", what+" are not the decoded elements of enc.MultierrorCauses")
 		}
-		sx.EachInstr(dl, func(in ssa.Instruction) {
+		dlr := regionOf(dl)
+		dlr.each(func(in ssa.Instruction) {
 			call, ok := in.(*ssa.Call)
 			if !ok || sx.Callee(call) != nil || call.Call.IsInvoke() || len(call.Call.Args) != 5 {
 				return
@@ -294,7 +304,7 @@ var rTreeRec = &Rule{
 			}
 		})
 		if olc := p.Named("errbase", "opaqueLeafCauses"); olc != nil {
-			for _, al := range allocsOf(dl, olc) {
+			for _, al := range allocsIn(dlr, olc) {
 				for _, r := range *al.Referrers() {
 					if fa, ok := r.(*ssa.FieldAddr); ok && sx.FieldOf(fa).Name() == "causes" {
 						for _, r2 := range *fa.Referrers() {
@@ -330,10 +340,10 @@ var rTreeRec = &Rule{
 			return
 		}
 		nAl := 0
-		for _, al := range allocsOf(dl, ol) {
+		for _, al := range allocsIn(dlr, ol) {
 			nAl++
 			zero, why := false, "no test of len(enc.MultierrorCauses) dominates it"
-			for _, l := range dominatingLits(al.Block()) {
+			for _, l := range dlr.lits(al.Block()) {
 				bo, ok := l.V.(*ssa.BinOp)
 				if !ok || !isMCLen(bo.X) {
 					continue
